@@ -3,6 +3,13 @@
   running eventually ends (or acknowledges its cancellation), every shutdown handler that is active eventually ends
   (or acknowledges its cancellation) — reaches the end of the top-level run.  No bound on sizes; the run is an
   arbitrary infinite sequence of accepted events.
+
+  The cancellation of the top-level task from outside (`extCancel`) is an event of the environment that is never
+  *owed*: no fairness hypothesis mentions it, so the theorems below hold of the runs in which it never happens (nobody
+  is obliged to cancel the run) as well as of those in which it does — an infinite run contains it at most once
+  (`extCancel_once`), it counts among the boundedly many events other than `tick` (`BoundB.bounded_work`), and once
+  requested its delivery `cancelArrive 0` is urgent like that of a nested run (`quietB`): the run then ends cancelled,
+  which is still "the top-level run ends" (`pcB 0 = .over`).
 -/
 import AJ.Proofs.FinB
 namespace AJ.Proofs.LiveB
@@ -97,6 +104,33 @@ theorem eventually_only_ticks {c : Cfg} (hwf : c.wf = true) (r : InfRun c) :
   cases ht : isTick (r.ev i)
   · rw [ht] at h1; simp at h1
   · rfl
+
+/-- an infinite run contains the cancellation from outside at most once -/
+theorem extCancel_once {c : Cfg} (r : InfRun c) {i j : Nat} (hi : r.ev i = .extCancel) (hj : r.ev j = .extCancel) :
+    i = j := by
+  -- the number of `extCancel` in the prefixes: nondecreasing, at most 1, up by one at each occurrence
+  let f : Nat → Nat := fun n => extCount ((List.range n).map r.ev)
+  have hsucc : ∀ n, f (n + 1) = f n + (if isExt (r.ev n) = true then 1 else 0) := by
+    intro n
+    show extCount ((List.range (n + 1)).map r.ev) = _
+    rw [List.range_succ, List.map_append]
+    unfold extCount
+    cases hx : isExt (r.ev n) <;> simp [List.filter_append, List.filter, hx] <;> rfl
+  have hle : ∀ n, f n ≤ 1 := fun n => extCancel_at_most_once c _ _ (prefix_accepted r n)
+  have hmono : ∀ a b, a ≤ b → f a ≤ f b := mono_of_succ (fun n => by rw [hsucc n]; omega)
+  have key : ∀ a b, a < b → r.ev a = .extCancel → r.ev b = .extCancel → False := by
+    intro a b hab ha hb
+    have h1 := hsucc a
+    have h2 := hsucc b
+    rw [ha] at h1; rw [hb] at h2
+    simp only [isExt, if_true] at h1 h2
+    have h3 := hmono (a + 1) b (by omega)
+    have h4 := hle (b + 1)
+    omega
+  rcases Nat.lt_trichotomy i j with h | h | h
+  · exact (key i j h hi hj).elim
+  · exact h
+  · exact (key j i h hj hi).elim
 
 /-! ### along a run -/
 
